@@ -90,7 +90,7 @@ def subvalues(v):
 
 
 class Path:
-    __slots__ = ("body", "blocks", "labels", "events", "env", "cons", "end", "ret")
+    __slots__ = ("body", "blocks", "labels", "events", "env", "cons", "end", "ret", "tests")
 
     def __init__(self, body):
         self.body = body
@@ -101,6 +101,11 @@ class Path:
         self.cons = {}
         self.end = None
         self.ret = None
+        self.tests = []   # (bb, tested value as text, edge label) for every branch decided on the path
+
+    def tested(self, substr, label=None):
+        """Branch decisions on this path whose tested value mentions substr."""
+        return [t for t in self.tests if substr in t[1] and (label is None or t[2] == label)]
 
     def calls(self, *names):
         out = []
@@ -114,8 +119,12 @@ class Path:
     def has_call(self, *names):
         return bool(self.calls(*names))
 
-    def codes(self):
-        return {e[2] for e in self.events if e[0] == "code"}
+    def codes(self, *users):
+        """Code constants on the path; with users: only those handed to a call/aggregate so named."""
+        return {e[2] for e in self.events if e[0] == "code" and (not users or e[3] in users)}
+
+    def code_uses(self):
+        return {(e[3], e[2]) for e in self.events if e[0] == "code"}
 
     def closures(self):
         return [e[2] for e in self.events if e[0] == "closure"]
@@ -185,6 +194,7 @@ class Explorer:
         self.code_prefix = code_prefix
         self.follow_yield_drop = follow_yield_drop
         self.npaths = 0
+        self.stop_at = set()
 
     # ------------------------------------------------------------------ values
     def universe(self, adt):
@@ -367,8 +377,9 @@ class Explorer:
             del cons[k]
 
     # ------------------------------------------------------------------ exploration
-    def paths(self, start=0, env=None, cons=None):
+    def paths(self, start=0, env=None, cons=None, stop_at=()):
         self.npaths = 0
+        self.stop_at = set(stop_at)
         out = []
         p = Path(self.body)
         p.env = dict(env or {})
@@ -383,16 +394,35 @@ class Explorer:
         q.events = list(p.events)
         q.env = dict(p.env)
         q.cons = dict(p.cons)
+        q.tests = list(p.tests)
         return q
 
-    def _scan_codes(self, p, bb, ops):
-        for o in ops:
-            if o is not None and o.k == "const" and o.named and o.named.startswith(self.code_prefix):
-                p.events.append(("code", bb, o.named[len(self.code_prefix):]))
+    def _scan_codes(self, p, bb, vals, user):
+        """Record Code constants that are (part of) the values handed to `user`."""
+        pre = self.code_prefix
+        st = list(vals)
+        n = 0
+        while st and n < 64:
+            v = st.pop()
+            n += 1
+            if v is None:
+                continue
+            if v[0] == "const" and isinstance(v[1], str) and v[1].startswith(pre):
+                p.events.append(("code", bb, v[1][len(pre):], user))
+            elif v[0] == "agg":
+                st.extend(v[3])
+            elif v[0] == "call" and short(v[1]) in ("value", "into", "from", "new") and v[1].startswith(("h3::error", "<")):
+                st.extend(v[2])
 
     def _walk(self, bb, p, visits, out):
         body = self.body
         while True:
+            if bb in self.stop_at and p.blocks:
+                p.end = "stop"
+                p.blocks.append(bb)
+                out.append(p)
+                self._count()
+                return
             if visits.get(bb, 0) >= self.max_visits:
                 p.end = "loop-cut"
                 p.blocks.append(bb)
@@ -406,10 +436,11 @@ class Explorer:
             env = p.env
             for s in blk.stmts:
                 if s.s == "assign":
-                    self._scan_codes(p, bb, s.rv.ops)
                     val = self.eval_rvalue(env, s.rv)
                     if val[0] == "closure":
                         p.events.append(("closure", bb, val[1]))
+                    elif val[0] == "agg" and val[2] is not None and val[1] not in STD_ENUMS:
+                        self._scan_codes(p, bb, val[3], "agg:%s::%s" % (val[1].rsplit("::", 1)[-1], val[2]))
                     if s.place.is_local():
                         env[s.place.local] = val
                     else:
@@ -446,7 +477,6 @@ class Explorer:
                 bb = t.target
                 continue
             if k == "assert":
-                self._scan_codes(p, bb, [t.cond, t.a, t.b])
                 p.events.append(("assert", bb, t))
                 p.labels.append("")
                 bb = t.target
@@ -465,9 +495,9 @@ class Explorer:
                 bb = t.resume
                 continue
             if k == "call":
-                self._scan_codes(p, bb, t.args)
                 argv = tuple(self.eval_operand(env, a) for a in t.args)
-                ck = t.ckey or "indirect"
+                ck = flow.into_to_from(t)
+                self._scan_codes(p, bb, argv, short(ck))
                 if flow.is_transparent(t) and argv:
                     val = argv[0]
                 elif ck.endswith(FROM_RESIDUAL) and argv and argv[0][0] == "residual":
@@ -500,20 +530,24 @@ class Explorer:
                 if not succs:
                     p.end = "infeasible"
                     return
+                vtxt = vfmt(v)
                 if len(succs) == 1:
                     lab, tb, upd = succs[0]
                     upd(p.cons)
                     p.labels.append(lab)
+                    p.tests.append((bb, vtxt, lab))
                     bb = tb
                     continue
                 for lab, tb, upd in succs[1:]:
                     q = self._fork(p)
                     upd(q.cons)
                     q.labels.append(lab)
+                    q.tests.append((bb, vtxt, lab))
                     self._walk(tb, q, visits, out)
                 lab, tb, upd = succs[0]
                 upd(p.cons)
                 p.labels.append(lab)
+                p.tests.append((bb, vtxt, lab))
                 bb = tb
                 continue
             raise RuntimeError("unknown terminator " + k)
